@@ -134,6 +134,11 @@ func VC15Name(r *rand.Rand) string {
 	return strings.Join(parts, ".") + "." + tail
 }
 
+// VC15OddQName: question names on which dns.Question.pack and a name-normalising twin differ.
+func VC15OddQName(r *rand.Rand) string {
+	return []string{"", "", "unqualified", "unqualified.example.com", "www.example", ".", "a..b.", ".a."}[r.Intn(8)]
+}
+
 func vText(r *rand.Rand, max int) string {
 	n := r.Intn(max + 1)
 	var sb strings.Builder
@@ -631,6 +636,15 @@ func VC15Gen(r *rand.Rand, hostile bool) *VC15Case {
 			}
 			*sec = append(*sec, rr)
 		}
+	}
+	// The question section is the one part of a message the pooled packer encodes with code
+	// of its own (packQuestion) instead of a library record packer: names the library treats
+	// specially there — empty (no octets at all, yet one octet in Len()), not fully qualified
+	// (ErrFqdn), the root, an empty label — in any question position, after the owners were
+	// chosen so that the records stay as they are.
+	if nq > 0 && r.Intn(12) == 0 {
+		m.Question[r.Intn(nq)].Name = VC15OddQName(r)
+		c.tag("q-odd-name")
 	}
 
 	// EDNS: none / last / first / middle / several / aliased / outside Extra / disguised
